@@ -419,6 +419,89 @@ where
     });
 }
 
+/// one transition from an injected dual-averaging state (states that only very long or pathological histories reach:
+/// huge transition counters, `h_bar` at its extremes, averaged iterates at the edge of `T`'s range)
+fn injected<T: Sc, B: AutodiffBackend>(out: &mut Out, rng: &mut Sm)
+where
+    T: rand_distr::uniform::SampleUniform + num_traits::FromPrimitive,
+    StandardNormal: rand::distr::Distribution<T>,
+    StandardUniform: rand_distr::Distribution<T>,
+    Exp1: rand_distr::Distribution<T>,
+{
+    let id = out.fresh_id("dj");
+    let (target, dim) = random_target(rng, 0, 2);
+    let start: Vec<f64> = (0..dim).map(|_| rng.normal() * 0.5).collect();
+    let delta = rng.uniform(0.5, 0.99);
+    let seed = rng.next();
+    let m0 = match rng.below(3) {
+        0 => rng.range(0, 60),
+        1 => rng.range(60, 3000),
+        _ => rng.range(3000, 2_000_000),
+    } as usize;
+    let d = if rng.coin(0.7) { m0 + rng.range(1, 50) as usize } else { (m0 as u64).saturating_sub(rng.below(5)) as usize };
+    let eps = rng.log_uniform(0.05, 2.0);
+    let (tiny, huge) = (T::min_positive_value().to64(), T::max_value().to64());
+    let eps_bar = match rng.below(5) {
+        0 => tiny * rng.log_uniform(1.0, 1e3),
+        1 => huge / rng.log_uniform(1.0, 1e3),
+        _ => rng.log_uniform(1e-6, 1e3),
+    };
+    let h_bar = match rng.below(4) {
+        0 => rng.uniform(0.5, 1.0),
+        1 => rng.uniform(-0.6, -0.2),
+        _ => rng.uniform(-0.2, 0.5),
+    };
+    if !out.selected(&id) {
+        return;
+    }
+    guard_case(out, &id.clone(), "C04:panic", 1, |out| {
+        let p: Vec<T> = start.iter().map(|x| T::from64(*x)).collect();
+        let mut c = NUTSChain::<T, B, AnyTarget>::new(target.clone(), p, T::from64(delta)).set_seed(seed);
+        c.verif_set_adapt_state((m0, 0, T::from64(eps), T::from64(eps_bar), T::from64(h_bar), T::from64(0.0)));
+        let (_, _, e0, eb0, hb0, mu0) = c.verif_adapt_state();
+        c.verif_init_chain(2, d);
+        let (m1, _nd1, e1, eb1, hb1, mu1) = c.verif_adapt_state();
+        let tk = |x: T| x.tok();
+        let mut states = vec![format!("{m1} {} {} {} {}", tk(e1), tk(eb1), tk(hb1), tk(mu1))];
+        verif_hooks::tl_enable();
+        c.step();
+        let ev = verif_hooks::tl_drain();
+        let Some(tr) = parse_step(&ev) else {
+            out.fail(&id, "C04:no-trace", "NUTS step produced no hook trace", 1, String::new());
+            return;
+        };
+        let stat = tr.alpha / tr.n_alpha as f64;
+        let (m, nd, e, eb, hb, mu) = c.verif_adapt_state();
+        states.push(format!("{m} {} {} {} {}", tk(e), tk(eb), tk(hb), tk(mu)));
+        out.count("predicate_evaluations");
+        let (ef, ebf) = (e.to64(), eb.to64());
+        if !(ef.is_finite() && ef > 0.0 && ebf.is_finite() && ebf > 0.0) {
+            out.fail(&id, "C04:step-size-not-positive-finite", "step size is not positive and finite", 1, format!("injected m={m} n_discard={nd} eps={ef} eps_bar={ebf} h_bar={}", hb.to64()));
+        }
+        if m > nd {
+            if ef.to_bits() != eb0.to64().to_bits() || ebf.to_bits() != eb0.to64().to_bits() {
+                out.fail(&id, "C04:not-averaged-iterate", "after warm-up the step size is not the averaged iterate", 1, format!("injected m={m} n_discard={nd} eps={ef} eps_bar={ebf} was {}", eb0.to64()));
+            }
+            if hb.to64().to_bits() != hb0.to64().to_bits() {
+                out.fail(&id, "C04:statistic-moved-after-warmup", "the dual-averaging statistic changed after warm-up (a resumed adaptation would start from it)", 1,
+                    format!("injected m={m} n_discard={nd} h_bar {} -> {}", hb0.to64(), hb.to64()));
+            }
+            out.count("injected_post_warmup");
+        } else {
+            out.count("injected_warmup");
+            if ef == tiny || ef == huge || ebf == tiny || ebf == huge {
+                out.count("injected_clamped");
+            }
+        }
+        let hx = |x: f64| T::from64(x).hex();
+        out.case(
+            format!("c04 {id} {} {} ; {m0} {d} 0 ; {} {} {} {} {} ; {}", T::NAME, hx(delta), e0.hex(), eb0.hex(), hb0.hex(), mu0.hex(), e1.hex(), hx(stat)),
+            format!("{id} {}", states.join(" | ")),
+        );
+        out.nontrivial(&format!("dj:{}:{m0}:{d}:{seed}", T::NAME));
+    });
+}
+
 pub fn run_c04(out: &mut Out) {
     let mut rng = out.rng("c04");
     let n = out.n(40, 800);
@@ -427,6 +510,13 @@ pub fn run_c04(out: &mut Out) {
             adaptation::<f64, Autodiff<NdArray<f64>>>(out, &mut rng);
         } else {
             adaptation::<f32, Autodiff<NdArray<f32>>>(out, &mut rng);
+        }
+    }
+    for i in 0..out.n(120, 3000) {
+        if i % 2 == 0 {
+            injected::<f64, Autodiff<NdArray<f64>>>(out, &mut rng);
+        } else {
+            injected::<f32, Autodiff<NdArray<f32>>>(out, &mut rng);
         }
     }
 }
